@@ -78,6 +78,21 @@ SEEDS = {
  "S26-c02-skip-recompute-upper-overlap": dict(prop="C02", origin="independent sub-agent",
     change="subdivide: after an overlap with the upper neighbour the fields of the event are only recomputed if it is in the result",
     needs="intersection: a clipping edge starting in the interior of a collinear subject edge, both operands on the same side, and a result ring whose lowest-left vertex is directly above the shared piece"),
+ "S28-c16-vertical-overlap-order-by-x": dict(prop="C16", origin="independent sub-agent",
+    change="possible_intersection: in the overlap branch the two left end points are ordered by x only instead of by the event order",
+    needs="a subject and a clipping segment overlapping collinearly on a VERTICAL line with different lower end points, the first argument starting higher: the wrong segment is divided, at a point outside its box"),
+ "S29-c10-f32-nextafter-bitstep": dict(prop="C10", origin="independent sub-agent",
+    change="NextAfter for f32 steps the raw bit pattern (+1/-1) instead of calling float_next_after",
+    needs="f32 only, negative x: the one-ulp bump of a division point (corner case 1 of divide_segment) then moves left instead of right"),
+ "S30-c18-recursive-successor": dict(prop="C18", origin="independent sub-agent",
+    change="SplayTree::next / prev: the iterative descent is replaced by recursive helpers `successor` / `predecessor`",
+    needs="a list-shaped tree of ~10^6 keys (monotone insertion) and a neighbour query at its deep end; or a comb polygon with 2*10^5 teeth in a Boolean operation"),
+ "S31-c14-noncontributing-twin-prev-in-result": dict(prop="C14", origin="independent sub-agent",
+    change="compute_fields: a non-contributing coincident twin takes its partner's prev_in_result instead of the partner",
+    needs="an edge shared by both operands whose typed twin is in the result, and a further ring whose leftmost vertex has that pair as nearest edges below"),
+ "S32-c13-collapsed-edge-skip-dead": dict(prop="C13", origin="independent sub-agent",
+    change="fill_queue: the skip of collapsed edges is rewritten to test `e1.cmp(&e2) == Equal`, which Ord for SweepEvent never returns",
+    needs="an operand ring with a repeated consecutive vertex (mid-ring, doubled closing point, or in a hole)"),
  "S27-c06-empty-clipping-early-return": dict(prop="C06", origin="independent sub-agent",
     change="boolean_operation: early return of the subject when the clipping operand has no polygons, regardless of the operation",
     needs="intersection with an empty MultiPolygon on the right-hand side"),
